@@ -9,6 +9,14 @@ CHECKS = {
    tech="bounded exhaustive enumeration of decoder inputs and of values per length class, differential against the consensus (de)serialiser",
    text="Every byte string in the stated finite sets (all strings <= 2 bytes quick / <= 3 thorough, class and length-prefix alphabets, every truncation and prefix bit flip of valid encodings) is decoded by the real decoder and by clvmr; every tree in the stated sets is serialised, compared byte for byte with clvmr and decoded again. Exhaustive inside the bounds; says nothing about unstructured inputs longer than the bounds.",
    note="Trusted: clvmr 0.16.2 node_to_bytes/node_from_bytes as the consensus format; the harness's own 40-line serialiser is cross-checked against clvmr on every value."),
+ "C04": dict(engine="clvmmc", cat="exploration", ref="DESIGN.md 4/C04",
+   tech="bounded exhaustive enumeration of CLVM trees and of a path/wrapper/re-rooting family, optimiser output vs original under the consensus evaluator",
+   text="Every CLVM tree with <= 4 (thorough 5) leaves over a 16-atom core alphabet, every (a (q . S) ARGS) with S <= 3 (4) leaves x 9 ARGS forms, and the product of ~1.7k (thorough ~4.8k) path atoms (1..9 bytes, all-ones, top-bit-set, zero-padded) x f/r wrapper chains (all short ones, homogeneous/alternating up to 80) x 6 re-rootings is optimised by optimize_sexp (and small trees by run_optimizer in both integer modes); original and output are evaluated by clvmr in a family of environments (complete trees, 90-deep spines, trees tailored to the path's bits). Exhaustive inside these bounds; the property's 'randomly beyond' region is replaced by the structured path family.",
+   note="Trusted: clvmr as consensus evaluator. One-directional: nothing is required where the original fails. Known finding F18 (pair in operator position) is matched by input class."),
+ "C06": dict(engine="clvmmc", cat="exploration", ref="DESIGN.md 4/C06",
+   tech="bounded exhaustive enumeration of CLVM programs x environments x atom spellings, stepping evaluator vs consensus evaluator",
+   text="Every tree with <= 4 (thorough 5) leaves over the core alphabet x 3 environments, every one-operator program over all 256 single-byte opcodes (minus softfork) and both secp opcodes with every argument list of length 0..3 over a 6-value alphabet, and every tree with <= 3 (4) leaves in 6 atom-spelling/integer-mode variants, are run by compiler::clvm::run and by clvmr; values must be identical and failures must coincide.",
+   note="Trusted: clvmr. Byte-string heads that spell an operator name are read as names by design and compared only in integer spelling; legacy-mode variants exclude all-zero atoms (documented lossy). Known finding F15 (pair in operator position) is matched by input class."),
  "C07": dict(engine="conv", cat="exploration", ref="DESIGN.md 4/C07",
    tech="bounded exhaustive enumeration of atoms/trees in both integer modes; all-pairs equality check over a pool of rich values",
    text="Every atom of length 0..2 (quick) / 0..3 (thorough, 16.8M) and every tree with <= 3 leaves over a 38-atom boundary alphabet is converted to rich form and back in both integer modes and its three tree hashes are compared with clvmr's and with an independent sha256 in the harness; for the equality clause ALL ordered pairs of a pool of ~1.7k rich values (every accepted text spelling and the converted form of each pool atom) are compared. Exhaustive inside these bounds.",
